@@ -398,6 +398,30 @@ func documents(c *fw.Ctx) {
 			}
 		}
 	}
+	// every byte value at every position of a set of small well-formed documents: between tokens, inside literals,
+	// inside strings (what counts as white space, as a digit, as a control character is decided per byte)
+	templates := []string{`[1,2]`, `{"a":1}`, ` [ true , null ] `, `{"k":[1.5e3,"s"],"m":{}}`, `"a\u00e9\n"`, `-0.5E-2`, `[[],{}]`, `{"a":"b","c":false}`, "[1,\n2]", `[ "x" ]`}
+	c.Family("D:byte-at-position", fmt.Sprintf("%d well-formed documents x every position x each of the 256 byte values inserted there or replacing the byte there", len(templates)))
+	for _, t := range templates {
+		for pos := 0; pos <= len(t); pos++ {
+			for b := 0; b < 256; b++ {
+				for mode := 0; mode < 2; mode++ {
+					if !c.Next() {
+						continue
+					}
+					var d []byte
+					if mode == 0 {
+						d = append(append(append(d, t[:pos]...), byte(b)), t[pos:]...)
+					} else if pos < len(t) {
+						d = append(append(append(d, t[:pos]...), byte(b)), t[pos+1:]...)
+					} else {
+						continue
+					}
+					st.doc(d)
+				}
+			}
+		}
+	}
 	c.Family("D:tokens", fmt.Sprintf("all sequences of <= 3 (thorough 4) tokens of a %d-token alphabet", len(tokens)))
 	maxTok := 3
 	if c.Thorough() {
